@@ -16,6 +16,7 @@ _CAP = []
 _INSTALLED = [False]
 FINDING15 = 'parse_table_line:noletter-exponent-abuts-on-layout-line'
 ABSENT_FIRST = 'read_tables:TOUGH2:table-absent-at-first-time'
+NEG2 = 'start_of_values:fixed-point-first-number-then-signed-number'
 
 
 def hx(s): return s.encode('latin-1', 'replace').hex()
@@ -47,7 +48,7 @@ def install_capture():
     _INSTALLED[0] = True
 
 
-def cases_from_capture(cap, seen, out, stats):
+def cases_from_capture(cap, seen, out, stats, only=None):
     """canonical (case line, expected result line) pairs for the extracted model"""
     for name, obj, a, k, res in cap:
         try:
@@ -84,6 +85,7 @@ def cases_from_capture(cap, seen, out, stats):
             stats['unmodelled_calls'] = stats.get('unmodelled_calls', 0) + 1
             continue
         stats['calls_' + name] = stats.get('calls_' + name, 0) + 1
+        if only is not None and name not in ('start_of_values', 'parse_table_line') and a[0] not in only: continue
         if case in seen: continue
         seen.add(case)
         out.append((case, exp))
@@ -150,6 +152,16 @@ def perturb_token(rng, s, a, b, kind):
 KINDS = ['digits', 'zero', 'negative', 'noletter', 'noletter', 'E2']
 
 
+def first_row_fixed_then_signed(ptabs):
+    """the first row of some table starts with a fixed-point number (no exponent) that is followed by a
+    signed number with at least one digit before its point"""
+    for p in ptabs:
+        if p.rows and len(p.rows[0][4]) >= 2:
+            t1, t2 = p.rows[0][4][0][2], p.rows[0][4][1][2]
+            if token_form(t1) == 'fixed' and re.match(r'^[+-]\d', t2): return True
+    return False
+
+
 def layout_row(ptab):
     """the row the reader infers the column layout from: the longest (stripped) row line of the
     table at the first result time (first one wins on ties)"""
@@ -187,6 +199,11 @@ def choose_substitutions(rng, lines, times, mode):
         if not cands: return []
         r, j = rng.choice(cands)
         add(r, j, 'noletter')
+    elif mode == 'directed-neg2':
+        cands = [p.rows[0] for p in times[0] if p.rows and len(p.rows[0][4]) >= 2 and token_form(p.rows[0][4][0][2]) == 'fixed'
+                 and re.match(r'^\d', p.rows[0][4][1][2])]
+        if not cands: return []
+        add(rng.choice(cands), 1, 'negative')
     elif mode == 'first-rows':
         for p in times[0]:
             if p.rows and p.rows[0][4]:
@@ -268,6 +285,10 @@ def process(job):
             path = os.path.join(tmpdir, os.path.basename(job['src']))
             with open(path, 'wb') as f: f.write('\n'.join(lines).encode('latin-1'))
             for s in subs: stats['sub_' + s[5]] = stats.get('sub_' + s[5], 0) + 1
+        only = None
+        if job.get('only_changed') and res['subs']:
+            only = set()
+            for sb in res['subs']: only.add(lines[sb[0]] + '\n'); only.add(lines[sb[0]])
         times = O.scan_listing(lines)
         job = dict(job, _times0=times[0] if times else [])
         del _CAP[:]
@@ -276,7 +297,7 @@ def process(job):
         try:
             lst = T.t2listing(path)
         except Exception as e:
-            cases_from_capture(list(_CAP), seen, res['cases'], stats)
+            cases_from_capture(list(_CAP), seen, res['cases'], stats, only)
             msg = '%s: %s' % (type(e).__name__, str(e).split('\n')[0][:80])
             key = 't2listing:open-raises:' + re.sub(r'[^A-Za-z]+', '-', msg)[:60]
             if 'Unable to parse table line' in str(e) and times:
@@ -287,6 +308,7 @@ def process(job):
                         for j in range(len(r[4]) - 1):
                             if r[4][j][1] == r[4][j + 1][0] and token_form(r[4][j][2]) == 'noletter':
                                 key = FINDING15
+            if key != FINDING15 and times and first_row_fixed_then_signed(times[0]): key = NEG2
             fail('opens', key, {'time': None}, msg, 'the listing opens (every printed number is of a form the row format can print)')
             stats['open_raises'] = 1
             return res
@@ -306,16 +328,18 @@ def process(job):
             snap[ti] = {tn: (list(lst._table[tn].row_name), lst._table[tn]._data.copy()) for tn in lst.table_names}
             for tn in lst.table_names:
                 check_table(lst, tn, ti, times[ti], lines, fail, stats, res, job)
-        cases_from_capture(list(_CAP), seen, res['cases'], stats)
+        cases_from_capture(list(_CAP), seen, res['cases'], stats, only)
         del _CAP[:]
         table_names = list(lst.table_names)
         lst.close()
         # ---- every subset of skipped tables leaves the others identical ---------------
         nsk = job.get('skips', 0)
-        if nsk and snap:
+        if (nsk or job.get('skip_sets')) and snap:
             subsets = [c for k in range(1, len(table_names) + 1) for c in itertools.combinations(table_names, k)]
             stats['skip_subsets_total'] = len(subsets)
-            for S in subsets[:nsk]:
+            subsets = subsets[:nsk]
+            if job.get('skip_sets'): subsets = [tuple(x) for x in job['skip_sets']]
+            for S in subsets:
                 try: l2 = T.t2listing(path, skip_tables=list(S))
                 except Exception as e:
                     fail('skip-tables', 'skip_tables:open-raises', {'skip': list(S), 'time': None}, repr(e)[:300], 'opens like the unskipped listing')
@@ -387,7 +411,7 @@ def check_table(lst, tn, ti, ptabs, lines, fail, stats, res, job):
         # (TOUGH2-MP prints border rows once per processor: rows with the same names and index count once)
         extra = [k for k in rn if k not in printed][:3]
         missing = [k for k in order if k not in set(rn)][:3]
-        fail('rows', 'setup_table:row-set-differs', dict(base, row=(missing or extra or [None])[0]),
+        fail('rows', NEG2 if first_row_fixed_then_signed(job['_times0']) else 'setup_table:row-set-differs', dict(base, row=(missing or extra or [None])[0]),
              '%d rows; not printed: %r; printed but absent: %r' % (len(rn), extra, missing),
              '%d printed rows (%d distinct) keyed by the printed names' % (len(P.rows), n_distinct))
     for i, k in enumerate(rn):
@@ -415,10 +439,18 @@ def check_table(lst, tn, ti, ptabs, lines, fail, stats, res, job):
             r, (j, v, form) = first_bad
             key = 'read_table_line:cell-differs:' + form
             if absent_at_first(job, ptabs, P): key = ABSENT_FIRST
+            elif first_row_fixed_then_signed(job['_times0']): key = NEG2
             fail('cells', key,
                  dict(base, row=k, column=T.column_name[j] if j < ncols else j, line_no=r[0], line=r[5]),
                  'cell = %r' % (got[j] if j < ncols else None), 'printed number %r' % (v,))
     # the Coq specification of the tokens is compared with the Python twin on the same rows
+    if ti == 0 and not str(lst.simulator).startswith('AUTOUGH'):
+        r = layout_row(P)
+        if r is not None:
+            stats['layout_lines'] = stats.get('layout_lines', 0) + 1
+            tk = r[4]
+            if all(tk[j][1] < tk[j + 1][0] or token_form(tk[j][2]) == 'E2' for j in range(len(tk) - 1)):
+                stats['layout_sidecond_met'] = stats.get('layout_sidecond_met', 0) + 1
     for r in P.rows[:: job.get('tok_stride', 1)]:
         res['tok'].append(('tok\t%s\t%d' % (hx(r[5]), 1 if col0I else 0), 'T ' + ','.join(hx(x) for x in (list(r[3]) + [t[2] for t in r[4]]))))
     # addressing: row name / row index / column name agree; reversed connection keys negate
